@@ -237,6 +237,9 @@ func Run(bh Behaviour, seed int64) ([]Line, error) {
 			if shared != nil {
 				// which of the two handles serves this step must not matter
 				shared.Cur = int(world.Uint64Seed(seed, fmt.Sprintf("%s/%d", bh.Id, i)) & 1)
+				if h, ok := op["h"].(float64); ok {
+					shared.Cur = int(h) & 1 // a behaviour may name the handle of a step
+				}
 				defer func() { shared.Cur = -1 }()
 			}
 			r.step(op, &ln)
